@@ -1,114 +1,11 @@
 package c03
 
-// Part (conc): two connections present keys at the same time. What Authorize does with a request — parse the
-// channel, decrypt the key with the shared cipher, compare the key's target with the channel — is run by two callers
-// under the controlled scheduler with statement-level yields in the channel parser, the key code and the ciphers;
-// each caller's verdict must be the one it gets when it is alone. (The broker-level clauses — contract lookup, ban
-// list — are exercised sequentially by the main part.)
+// Part (conc): two connections present keys at the same time; the scenarios are shared with C12 (engine/authconc).
 
 import (
-	"fmt"
-	"strings"
-	"time"
-
-	"github.com/emitter-io/emitter/internal/security"
-	"github.com/emitter-io/emitter/internal/verifx/engine/brokerx"
+	"github.com/emitter-io/emitter/internal/verifx/engine/authconc"
 	"github.com/emitter-io/emitter/internal/verifx/engine/sched"
 )
 
-var concFiles = []string{"internal/security/cipher/", "internal/security/key.go", "internal/security/channel.go"}
-
-type concReq struct {
-	target  string
-	perms   uint8
-	request string
-}
-
-// verdictOf is the data path of Authorize for one request: (parsed, decrypted, target covers, permission).
-func verdictOf(ci interface {
-	DecryptKey([]byte) (security.Key, error)
-}, keyStr, request string, perm uint8) string {
-	ch := security.ParseChannel([]byte(keyStr + "/" + request))
-	if ch.ChannelType == security.ChannelInvalid {
-		return "unparsable"
-	}
-	k, err := ci.DecryptKey(append([]byte(nil), ch.Key...))
-	if err != nil {
-		return "undecryptable"
-	}
-	return fmt.Sprintf("covers=%v perm=%v opts=%d levels=%d", k.ValidateChannel(ch), k.HasPermission(perm), len(ch.Options), len(ch.Query))
-}
-
-func concScenarios() map[string]*sched.Scenario {
-	m := map[string]*sched.Scenario{}
-	pairs := map[string][2]concReq{
-		// one request is covered, the other is not: a verdict leaking from one caller to the other flips one of them
-		"covered-vs-refused": {{"a/b/", security.AllowRead, "a/b/"}, {"c/", security.AllowWrite, "a/b/c/"}},
-		// wildcards and options on both sides
-		"wildcards-options": {{"a/+/", security.AllowRead, "a/x/?last=3&ttl=5"}, {"a/#/", security.AllowWrite, "a/+/c/?me=0"}},
-	}
-	for ver := 1; ver <= 3; ver++ {
-		for pname, pr := range pairs {
-			ver, pr := ver, pr
-			name := fmt.Sprintf("authorize-v%d-%s", ver, pname)
-			m[name] = &sched.Scenario{
-				Name: name, Files: concFiles,
-				Body: func(s *sched.Sched) {
-					lic := brokerx.FixedLicense(ver, 1)
-					ci, err := lic.Cipher()
-					if err != nil {
-						panic(err)
-					}
-					keys := make([]string, 2)
-					want := make([]string, 2)
-					for i, r := range pr {
-						k := security.Key(make([]byte, 24))
-						k.SetSalt(uint16(0x0203 * (i + 1)))
-						k.SetMaster(1)
-						k.SetContract(lic.Contract())
-						k.SetSignature(lic.Signature())
-						k.SetPermissions(r.perms)
-						k.SetExpires(time.Unix(0, 0))
-						if err := k.SetTarget(r.target); err != nil {
-							panic(err)
-						}
-						keys[i], _ = ci.EncryptKey(k)
-						want[i] = verdictOf(ci, keys[i], r.request, r.perms) // the caller alone
-					}
-					got := make([]string, 2)
-					for i := 0; i < 2; i++ {
-						i := i
-						s.Go(fmt.Sprintf("T%d", i), func() { got[i] = verdictOf(ci, keys[i], pr[i].request, pr[i].perms) })
-					}
-					s.AtEnd(func() {
-						for i := 0; i < 2; i++ {
-							s.Obs("T%d:%v:%s|alone:%s", i, got[i] == want[i], got[i], want[i])
-						}
-					})
-				},
-				Check: func(x *sched.Exec) (string, string) {
-					if len(x.Obs) != 2 {
-						return "concurrent-requests:incomplete", "execution did not complete"
-					}
-					for _, o := range x.Obs {
-						if strings.Contains(o, ":false:") {
-							return "concurrent-requests:verdict-differs", "a request is judged differently when another request is being judged at the same time: " + strings.Join(x.Obs, " ; ")
-						}
-					}
-					return "", ""
-				},
-			}
-		}
-	}
-	return m
-}
-
-func concOrder() []string {
-	var out []string
-	for ver := 1; ver <= 3; ver++ {
-		for _, p := range []string{"covered-vs-refused", "wildcards-options"} {
-			out = append(out, fmt.Sprintf("authorize-v%d-%s", ver, p))
-		}
-	}
-	return out
-}
+func concScenarios() map[string]*sched.Scenario { return authconc.Scenarios() }
+func concOrder() []string                       { return authconc.Order() }
